@@ -581,6 +581,14 @@ class Program:
         if isinstance(node, ast.BinOp) and isinstance(node.op, ast.BitOr):
             a, b = f(node.left), f(node.right)
             return a | b
+        if isinstance(node, ast.BinOp) and isinstance(node.op, (ast.Sub, ast.Mult, ast.Div, ast.Pow, ast.FloorDiv, ast.Mod)):
+            # numeric module constants (`_TOL = 10 ** (-PRECISION)`)
+            a, b = f(node.left), f(node.right)
+            if not all(isinstance(x, (int, float)) and not isinstance(x, bool) for x in (a, b)) or (isinstance(node.op, ast.Pow) and abs(b) > 64):
+                raise ValueError("not a numeric constant expression")
+            import operator as _op
+
+            return {ast.Sub: _op.sub, ast.Mult: _op.mul, ast.Div: _op.truediv, ast.Pow: _op.pow, ast.FloorDiv: _op.floordiv, ast.Mod: _op.mod}[type(node.op)](a, b)
         if isinstance(node, ast.Name):
             r = self.resolve_in_module(m, node.id)
             if isinstance(r, tuple) and r[0] == "const":
